@@ -253,6 +253,7 @@ type server struct {
 	inflight int32
 	lastAct  int64 // unix nanos of last arrival / handler exit
 	arrived  int64
+	failed   int64 // requests the server itself failed (answered non-2xx, hung, reset)
 
 	mu        sync.Mutex
 	arrivals  int
@@ -408,6 +409,7 @@ func (s *server) handleMetrics(w http.ResponseWriter, r *http.Request) {
 	if out == oResetBefore {
 		s.ev++
 		rec.Ev = s.ev
+		atomic.AddInt64(&s.failed, 1)
 		s.mu.Unlock()
 		reset(w)
 		return
@@ -439,6 +441,9 @@ func (s *server) handleMetrics(w http.ResponseWriter, r *http.Request) {
 	}
 	s.ev++
 	rec.Ev, rec.Out = s.ev, out
+	if !out.ack() {
+		atomic.AddInt64(&s.failed, 1)
+	}
 	if out.ack() {
 		if len(pts) > 0 {
 			delete(s.streak, pts[0])
@@ -684,7 +689,34 @@ func runCase(res *mon.Result, st *stats17, c *ccase, scratch string) {
 		panic("c17: the route did not register its queue_full counter under " + mon.CounterName(dropKey))
 	}
 	drop0 := dropCtr.Count()
-	err0 := mon.Counter(errKey)
+	errCtr, ok := metrics.DefaultRegistry.Get(mon.CounterName(errKey)).(metrics.Counter)
+	if !ok {
+		panic("c17: the route did not register its flush error counter under " + mon.CounterName(errKey))
+	}
+	err0 := errCtr.Count()
+	// The stall clocks run while the endpoint is idle. The route legitimately leaves it idle while it backs off:
+	// errBackoffMin x 1.5^k after k consecutive failures of one batch. The script keeps k <= maxStreak+3, but on an
+	// overloaded machine the client also times out on requests the server answered 2xx; those failures show up only
+	// in the route's own flush error counter. All of them are charged to one batch (upper bound on its backoff).
+	clientOnlyFailures := func() int {
+		x := int(errCtr.Count()-err0) - int(atomic.LoadInt64(&srv.failed))
+		if x < 0 {
+			x = 0
+		}
+		return x
+	}
+	backoffAllowance := func() time.Duration {
+		k := maxStreak + 3 + 2 + clientOnlyFailures()
+		b := float64(time.Millisecond)
+		for i := 0; i < k && b < float64(30*time.Second); i++ {
+			b *= 1.5
+		}
+		if b > float64(30*time.Second) {
+			b = float64(30 * time.Second)
+		}
+		return 3 * time.Duration(b)
+	}
+	stallNow := func() time.Duration { return stallBound + backoffAllowance() }
 
 	// ---- dispatch
 	exact := !c.Blocking && c.Dispatchers == 1
@@ -764,7 +796,7 @@ watch:
 			if s0 == 0 || time.Duration(now-s0) < stallBound {
 				continue
 			}
-			if c.Blocking && srv.idleFor() < stallBound {
+			if c.Blocking && srv.idleFor() < stallNow() {
 				continue
 			}
 			calls := atomic.LoadInt64(&ds.calls)
@@ -774,7 +806,7 @@ watch:
 			if atomic.LoadInt64(&ds.calls) != calls || atomic.LoadInt64(&ds.start) != s0 {
 				continue // it moved on
 			}
-			if c.Blocking && srv.idleFor() < stallBound {
+			if c.Blocking && srv.idleFor() < stallNow() {
 				continue // the endpoint sees requests again: the buffer is being drained, blocking is legal
 			}
 			if !p1.parked() || !p2.parked() || !samePark(p1, p2) {
@@ -829,7 +861,7 @@ watch:
 	quiesce := func() bool {
 		t0 := time.Now()
 		for {
-			if srv.distinctAcked() >= accepted || srv.idleFor() > idle {
+			if srv.distinctAcked() >= accepted || srv.idleFor() > idle+backoffAllowance() {
 				return true
 			}
 			if time.Since(t0) > 10*time.Minute {
@@ -876,7 +908,7 @@ shutwait:
 			break shutwait
 		case <-tick.C:
 		}
-		if time.Since(tCall) < stallBound || srv.idleFor() < stallBound {
+		if time.Since(tCall) < stallBound || srv.idleFor() < stallNow() {
 			continue // retries against a failing endpoint legitimately take time: the clock only runs while the endpoint is idle
 		}
 		p1, _ := sampleGoroutine(atomic.LoadInt64(&shutGid))
@@ -886,7 +918,7 @@ shutwait:
 		if len(shut) > 0 {
 			continue
 		}
-		if atomic.LoadInt64(&srv.arrived) != arr1 || srv.idleFor() < stallBound {
+		if atomic.LoadInt64(&srv.arrived) != arr1 || srv.idleFor() < stallNow() {
 			continue // the endpoint saw traffic again: not idle
 		}
 		if !p1.parked() || !p2.parked() || !samePark(p1, p2) {
@@ -896,7 +928,7 @@ shutwait:
 			}
 			continue
 		}
-		viol("shutdown-hang", map[string]interface{}{"sample1": p1, "sample2": p2, "endpoint_idle_ms": int(srv.idleFor() / time.Millisecond),
+		viol("shutdown-hang", map[string]interface{}{"sample1": p1, "sample2": p2, "endpoint_idle_ms": int(srv.idleFor() / time.Millisecond), "failures_seen_only_by_the_client": clientOnlyFailures(),
 			"accepted": accepted, "acknowledged_distinct": srv.distinctAcked()},
 			"Shutdown() has not returned %v after the call although the endpoint is healthy and saw no request for > %v; parked at %s (two samples %v apart, same frames)",
 			time.Since(tCall).Round(100*time.Millisecond), stallBound, p2.where(), sampleGap)
@@ -1096,7 +1128,8 @@ shutwait:
 	st.add("points_acknowledged_distinct", distinctFinal)
 	st.add("config_posts", cfgPosts)
 	st.add("bad_request_headers", badHeader)
-	st.add("route_flush_error_counter", int(mon.Counter(errKey)-err0))
+	st.add("route_flush_error_counter", int(errCtr.Count()-err0))
+	st.add("failures_seen_only_by_the_client", clientOnlyFailures())
 	if drops > 0 {
 		st.add("cases_with_counted_drops", 1)
 	}
@@ -1170,6 +1203,7 @@ func main() {
 	res.Assume("a POST acknowledges exactly the points the harness server decoded from its body before answering 2xx (any 2xx, whatever the response body)")
 	res.Assume("'accepted' = Dispatch returned and the route's queue_full counter did not move for it (exact per call with a single dispatcher, by totals otherwise)")
 	res.Assume("bounded liveness: retry-until-acknowledged is judged after the fault script is exhausted (<= 6 decoded failures per batch) and the endpoint saw no request for 2s + 10x(flushMaxWait+timeout)")
+	res.Assume("the endpoint-idle clocks are extended by 3x the largest backoff the route may legitimately be sleeping in: 1ms x 1.5^k with k = scripted cap + the failures only the client saw (its flush error counter minus the failures the server dealt), all charged to one batch")
 	res.Assume("a stall is only reported when two goroutine stack samples 1s apart show the same goroutine parked at the same frames after >= 2s (Dispatch normally takes microseconds, Shutdown on an idle endpoint milliseconds)")
 	scratch := mon.Scratch()
 	must := func(err error) {
